@@ -127,6 +127,8 @@ pub struct Classes {
     pub no_observer_rounds: u32,
     pub multi_run_rounds_with_rerun: u32,
     pub audits: u32,
+    pub nodes_released: u32,
+    pub state_dropped_in_the_middle: u32,
 }
 
 #[derive(Clone, Debug)]
@@ -305,6 +307,7 @@ impl<'p> Harness<'p> {
                 arms: None,
                 cutoff: CutKind::PartialEq,
                 writes: vec![],
+                env_refs: vec![],
             },
         });
         let evs = take_log();
@@ -853,6 +856,9 @@ impl<'p> Harness<'p> {
         self.removed_since_stab = false;
         self.sub_changed_since_stab.clear();
         self.quiescent = !events.iter().any(|e| matches!(e, Event::Write { .. }));
+        if self.prof.drop_state {
+            self.leak_check(&format!("after round {r}"));
+        }
         if !flush {
             self.handle_orphans(&root_obs);
         }
@@ -1464,6 +1470,178 @@ impl<'p> Harness<'p> {
         acts
     }
 
+    fn strong_roots(&self) -> Vec<Tag> {
+        let mut roots: Vec<Tag> = vec![];
+        roots.extend(self.nodes.iter().filter(|h| h.incr.is_some()).map(|h| h.tag));
+        roots.extend(self.vars.iter().filter(|h| h.var.is_some()).map(|h| h.tag));
+        for o in &self.obs {
+            // the internal observer (and so the node) lives as long as a user handle or the state holds it
+            if o.alive > 0 || matches!(o.state, OState::InUse | OState::Disallowed) {
+                roots.push(o.node);
+            }
+        }
+        for s in &self.subs {
+            let o = &self.obs[s.obs as usize];
+            if o.alive > 0 || matches!(o.state, OState::InUse | OState::Disallowed) {
+                for a in &s.acts {
+                    if let HAct::Write(vt, ..) = a {
+                        roots.push(*vt);
+                    }
+                }
+            }
+        }
+        roots
+    }
+
+    /// C12: every node that no handle, observer or closure can reach must have been released
+    pub fn leak_check(&mut self, when: &str) {
+        if self.ended {
+            return;
+        }
+        let reach = self.model.strongly_reachable(&self.strong_roots());
+        let tracked: Vec<(Tag, usize)> = build::ALL_NODES.with(|a| a.borrow().iter().map(|(t, w)| (*t, w.strong_count())).collect());
+        let mut leaked = vec![];
+        let mut freed = 0u32;
+        for (t, sc) in tracked {
+            if (t as usize) < reach.len() && !reach[t as usize] {
+                if sc > 0 {
+                    leaked.push((t, sc));
+                } else {
+                    freed += 1;
+                }
+            }
+        }
+        self.classes.nodes_released += freed;
+        if let Some((t, sc)) = leaked.first() {
+            let kind = self.model.node(*t).kind.clone();
+            self.fail(
+                "C12",
+                "leak",
+                format!("{when}: node #{t} ({kind:?}) is unreachable from every remaining handle, observer and closure but still has {sc} strong reference(s); {} such nodes", leaked.len()),
+            );
+        }
+    }
+
+    /// C12: drop every handle and the state in a drawn order, interleaved with stabilises
+    pub fn finish_drawn(mut self, ch: &mut Choices) -> CaseResult {
+        let ticks = trace::ticks();
+        #[derive(Clone, Copy, Debug)]
+        enum It {
+            Node(usize),
+            Var(usize),
+            Obs(usize, usize),
+            State,
+        }
+        let mut state_pos = 0usize;
+        let mut n_drops = 0usize;
+        while self.panic.is_none() {
+            let mut items: Vec<It> = vec![];
+            if self.state.is_some() {
+                items.push(It::State);
+            }
+            items.extend(self.live_nodes().into_iter().map(It::Node));
+            items.extend(self.live_vars().into_iter().map(It::Var));
+            for oi in 0..self.obs.len() {
+                let n = self.obs_tbl.borrow()[oi].clones.len();
+                for ci in 0..n {
+                    if self.obs_tbl.borrow()[oi].clones[ci].is_some() {
+                        items.push(It::Obs(oi, ci));
+                    }
+                }
+            }
+            if items.is_empty() {
+                break;
+            }
+            // byte 0 drops the state last
+            let pick = items.len() - 1 - ch.choose(items.len());
+            let it = items[if items.len() > 1 && matches!(items[0], It::State) { (pick + 1) % items.len() } else { pick }];
+            n_drops += 1;
+            let was_necessary;
+            let r = match it {
+                It::Node(i) => {
+                    let h = self.nodes[i].incr.take();
+                    was_necessary = self.necessary.contains(&self.nodes[i].tag);
+                    self.trace.push(format!("drop(handle #{})", self.nodes[i].tag));
+                    guarded(move || drop(h))
+                }
+                It::Var(i) => {
+                    let h = self.vars[i].var.take();
+                    was_necessary = false;
+                    self.trace.push(format!("drop(var handle #{})", self.vars[i].tag));
+                    guarded(move || drop(h))
+                }
+                It::Obs(oi, ci) => {
+                    let h = self.obs_tbl.borrow_mut()[oi].clones[ci].take();
+                    was_necessary = false;
+                    self.trace.push(format!("drop(o{oi}.{ci})"));
+                    self.obs[oi].alive -= 1;
+                    if self.obs[oi].alive == 0 {
+                        let o = &mut self.obs[oi];
+                        o.state = match o.state {
+                            OState::Created => OState::Gone,
+                            OState::InUse => OState::Disallowed,
+                            s => s,
+                        };
+                        self.classes.obs_removed += 1;
+                    }
+                    guarded(move || drop(h))
+                }
+                It::State => {
+                    let st = self.state.take();
+                    was_necessary = false;
+                    state_pos = n_drops;
+                    self.trace.push("drop(state)".into());
+                    // the state owns the internal observers
+                    for o in self.obs.iter_mut() {
+                        o.state = OState::Gone;
+                    }
+                    guarded(move || drop(st))
+                }
+            };
+            if was_necessary && self.state.is_some() {
+                self.classes.handle_dropped_while_necessary += 1;
+            }
+            if let Err(m) = r {
+                self.ended = false;
+                self.on_panic("dropping a handle", m);
+                self.fail("C12", "drop-panicked", format!("drop order {:?}: panic", it));
+                break;
+            }
+            if self.state.is_some() && !self.ended && !self.poisoned && ch.flag(1, 3) {
+                self.act_stabilise();
+            }
+        }
+        let total = n_drops;
+        if state_pos > 1 && state_pos < total {
+            self.classes.state_dropped_in_the_middle += 1;
+        }
+        // everything is gone: every node and every captured value must have been released
+        let obs_tbl = std::mem::replace(&mut self.obs_tbl, Rc::new(RefCell::new(Vec::new())));
+        let subs = std::mem::take(&mut self.subs);
+        let r = guarded(move || {
+            drop(subs);
+            drop(obs_tbl);
+        });
+        if let Err(m) = r {
+            self.on_panic("final drop", m);
+        }
+        if self.panic.is_none() && self.state.is_none() {
+            let alive: Vec<Tag> = build::ALL_NODES.with(|a| a.borrow().iter().filter(|(_, w)| w.strong_count() > 0).map(|(t, _)| *t).collect());
+            if !alive.is_empty() {
+                self.fail("C12", "leak-at-end", format!("after dropping every handle and the state, {} nodes are still allocated, e.g. #{}", alive.len(), alive[0]));
+            }
+            build::clear_thread_state();
+            let _ = take_log();
+            let c = build::canary_count();
+            if c != 1 {
+                self.fail("C12", "captured-values-leaked", format!("after dropping every handle and the state, {} closure(s) are still alive", c - 1));
+            }
+        }
+        build::clear_thread_state();
+        let _ = take_log();
+        CaseResult { failures: self.failures, classes: self.classes, trace: self.trace, panic: self.panic, ticks }
+    }
+
     /// drop everything; any panic here is C04's (and C12's) business
     pub fn finish(mut self) -> CaseResult {
         let ticks = trace::ticks();
@@ -1527,5 +1705,11 @@ pub fn run_case_fault(
         h.act_stabilise();
         h.after_action("stabilise");
     }
-    h.finish()
+    if prof.drop_state && h.panic.is_none() && !h.classes.discarded {
+        // (a case the model gave up on still gets its drops checked)
+        h.ended = false;
+        h.finish_drawn(&mut ch)
+    } else {
+        h.finish()
+    }
 }
